@@ -422,7 +422,8 @@ class Check:
         if r.get("hang"):
             fails = [{"witness": params, "detail": r["detail"], "reproduced": True}]
         self.standins.append({"name": name, "bound": bound_text, "cases": r.get("cases"), "seconds": round(time.time() - t0, 1),
-                              "why": "out of reach: %s" % (self.out_of_reach[0]["what"] if self.out_of_reach else "thorough tier / always"),
+                              "why": ("a task is out of the deductive engine's reach on this tree: %s" % self.out_of_reach[0]["what"]) if self.out_of_reach
+                              else ("runs on every check (bounded, never counted as proved)" if always else "thorough tier"),
                               "failures": fails, "error": r.get("detail") if "failures" not in r and not r.get("hang") else None})
         if "failures" in r and not fails:
             self.standin_passed = True
@@ -532,7 +533,7 @@ class Check:
                 "notes": self.notes,
                 "exit_code": code,
             },
-            "assumptions": self.assumptions,
+            "assumptions": list(self.assumptions) + [t for t in self.trusted_base if t not in self.assumptions],
             "wall_s": round(wall, 2),
             "violations": len(violations),
         }
